@@ -153,6 +153,9 @@ func explore(cfg *Config, P *interp.Program, L *Loaded, h *HarnessFn, roots []*s
 					}
 				default:
 					rep.Incomplete = appendUniq(rep.Incomplete, res.Outcome+": "+res.Detail)
+					if res.Outcome == "unsupported" || res.Outcome == "nondet-mismatch" {
+						stop = true
+					}
 				}
 				if res.Outcome == "ok" && res.Model != nil && len(rep.Samples) < to.samples {
 					rep.Samples = append(rep.Samples, Sample{Harness: h.Name, Path: pathStr(res.Trace), Model: res.Model, Order: res.Order, Observed: res.Observed})
